@@ -230,6 +230,10 @@ func orderDiverges(text string, upto int) bool {
 		}
 		a.value(v)
 		b.value(v)
+		if b.unresolved && !a.unresolved {
+			// the analyzer gives up at the first name it cannot resolve
+			return true
+		}
 		for ref, site := range a.refs {
 			if b.refs[ref] != site {
 				return true
@@ -248,6 +252,7 @@ type orderWalker struct {
 	analyzerOrder bool
 	defs          map[string]any           // name -> defining node
 	refs          map[*astzed.TypeName]any // reference -> defining node (nil: unresolved)
+	unresolved    bool                     // some reference found no definition when it was reached
 }
 
 func newOrderWalker(analyzerOrder bool) *orderWalker {
@@ -312,6 +317,9 @@ func (w *orderWalker) typ(t astzed.Type) {
 		w.defs[t.Name] = t
 	case *astzed.TypeName:
 		w.refs[t] = w.defs[t.Name]
+		if w.defs[t.Name] == nil {
+			w.unresolved = true
+		}
 	case *astzed.TypeRecord:
 		for _, f := range t.Fields {
 			w.typ(f.Type)
